@@ -157,7 +157,8 @@ def dag(draw, *, max_nodes=12, leaf_profile='plain', kinds=None, p_alias=0.55,
       # experimental DictConfig: a Config subclass that builds a dict from arbitrary keyword arguments
       names_ = draw(st.lists(st.sampled_from(['x', 'y', 'child', 'k1', 'k2']), unique=True, min_size=1, max_size=4))
       kw = {nm: ref() for nm in names_}
-      node = {'k': 'B', 'bt': 'DictConfig', 'fn': {'kind': 'sym', 'name': 'things:f2'}, 'pos': [], 'kw': kw, 'edits': []}
+      node = {'k': 'B', 'bt': draw(st.sampled_from(['DictConfig', 'NamespaceConfig'])),
+              'fn': {'kind': 'sym', 'name': 'things:f2'}, 'pos': [], 'kw': kw, 'edits': []}
       if draw(st.booleans()):
         # a key set by attribute assignment (also one named like the **kwargs parameter)
         nm = draw(st.sampled_from(['kwargs', 'late']))
@@ -165,6 +166,11 @@ def dag(draw, *, max_nodes=12, leaf_profile='plain', kinds=None, p_alias=0.55,
         names_ = names_ + [nm]
       if tags and draw(st.booleans()):
         node['tags'] = [[draw(st.sampled_from(names_)), draw(st.sampled_from(['TagA', 'TagB', 'TagX']))]]
+    elif kind == 'Bclash':
+      # f(p0='d_p0', /, **kw) configured as f(v, p0=w): the **kwargs entry is named like the
+      # positional-only parameter
+      node = {'k': 'B', 'bt': draw(st.sampled_from(list(bts))), 'fn': {'kind': 'fn', 'code': 'p1k0d1nqw'},
+              'pos': [ref()], 'kw': {'p0': ref()}, 'edits': []}
     elif kind == 'Bpo3':
       # required positional-only parameter followed by defaulted positional-only ones
       pos = [ref()]
